@@ -6,14 +6,16 @@ import SimbodyProofs.C26_world
 Model: `SimbodyModel/C26.lean` (slot machine transcribed from `Array.h`; `ClonePtr`,
 `CloneOnWritePtr`, `ReferencePtr`, `ResetOnCopy`, `ReinitOnCopy`).
 
-* `refines_list`        every operation = the `std::vector` list operation under the abstraction `abs`
-* `slots_disciplined`   no construct-on-live / destruct-or-read-of-dead, constructions − destructions = growth
-* `run_disciplined`, `world_disciplined`   the same over arbitrary operation sequences (one / several arrays)
-* `capacity_growth`     size ≤ capacity; growth at least doubles (or reaches max_size); shrinking ops keep capacity
-* the hypothesis `refOK` ("the value argument is not an element that the operation reallocates or shifts")
-  is necessary: `push_back_alias_breaks_discipline`, `insert_alias_breaks_refinement`, … (finding F3)
-* `cow_independent`, `cow_shares_until_write`, `clone_ptr_deep`, `reset_on_copy`, `reinit_on_copy`,
-  `reference_ptr_shallow`
+* CURRENT code (`stepFixed2`, `wstepCurrent` — what the driver executes):
+  `fixed2_step_disciplined`, `run_current_disciplined`, `run_current_refines`, `wstep_current_ok`,
+  `world_current_disciplined`, `world_current_refines` — no aliasing hypothesis at all
+* ORIGINAL algorithm (`step`, value arguments modelled as references): `refines_list`, `slots_disciplined`,
+  `run_disciplined`, `world_disciplined`, … under the hypothesis `refOK`; the hypothesis is necessary:
+  `push_back_alias_breaks_discipline`, `insert_alias_breaks_refinement`, … (finding F3, fixed by 06f34988),
+  `emplace_alias_broke_fix1_code` (F3b, fixed by f70ab3a8); `hist_fix1_step_disciplined` is historical
+* `capacity_growth`, `view_write_exact`
+* pointer wrappers: `cow_shares_until_write`, `cow_independent`, `cow_reset`, `clone_ptr_deep` (single copy +
+  write steps); `reset_on_copy`, `reinit_on_copy`, `reference_ptr_shallow` are definitional unfoldings
 -/
 namespace C26
 
